@@ -550,3 +550,38 @@ func GenIter(r *Rng, maxn int) *IterIn {
 		return &IterIn{Kind: k, M: a.Pack(), Path: path, Family: fam}
 	}
 }
+
+// DenseSweep: the full contracts of qrAlgorithm / svd / eigensystem on DENSE random
+// inputs of every size 1..8 (all factors requested), part of every run.
+//   qr : general float, general integer
+//   svd: square and tall (n x m, m < n) float, square integer
+//   eig: symmetric float without the Symmetric option (real spectrum: every eigenpair
+//        is checked), symmetric float with it, non-symmetric integer matrix similar
+//        to a triangular matrix with distinct diagonal (real spectrum)
+func DenseSweep(r *Rng) []*IterIn {
+	var out []*IterIn
+	for n := 1; n <= 8; n++ {
+		path := "f64"
+		if n%3 == 0 {
+			path = "r64"
+		}
+		fam := "dense-sweep"
+		out = append(out, &IterIn{Kind: "qr", M: randFloat(r, n, n, 4).Pack(), B1: true, Path: path, Family: fam})
+		out = append(out, &IterIn{Kind: "qr", M: randInt(r, n, n, -5, 5).Pack(), B1: true, Path: "f64", Family: fam})
+		out = append(out, &IterIn{Kind: "svd", M: randFloat(r, n, n, 4).Pack(), B1: true, B2: true, Path: path, Family: fam})
+		if n > 1 {
+			out = append(out, &IterIn{Kind: "svd", M: randFloat(r, n, r.Range(1, n-1), 4).Pack(), B1: true, B2: true, Path: "f64", Family: fam})
+		}
+		out = append(out, &IterIn{Kind: "svd", M: randInt(r, n, n, -5, 5).Pack(), B1: true, B2: true, Path: "f64", Family: fam})
+		out = append(out, &IterIn{Kind: "eig", M: symmetrize(randFloat(r, n, n, 4)).Pack(), B1: true, Path: path, Family: fam, RealSpectrum: true})
+		out = append(out, &IterIn{Kind: "eig", M: symmetrize(randFloat(r, n, n, 4)).Pack(), B1: true, Sym: true, Path: "f64", Family: fam, RealSpectrum: true})
+		for t := 0; t < 20; t++ {
+			a, distinct := intSimilar(r, n)
+			if distinct {
+				out = append(out, &IterIn{Kind: "eig", M: a.Pack(), B1: true, Path: "f64", Family: fam, RealSpectrum: true})
+				break
+			}
+		}
+	}
+	return out
+}
